@@ -8,7 +8,7 @@
 //! Inputs:
 //!  * every `.sc` under `pipe::default_dirs()` (+ corpus/lang) and the extra directories: tag `wt`
 //!    (built to be well-typed), except files in a `fail_check` directory or whose name contains
-//!    `-ill-`: tag `ill`;  /repo/testsuite/fail_check is always included;
+//!    `-ill-` (or which is listed in `ILL_CORPUS`): tag `ill`;  /repo/testsuite/fail_check is always included;
 //!  * `n` random well-typed programs from the generator (`gen_fun`, when linked in): tag `wt`;
 //!  * a directed family of well-typed programs that REUSE the name of an outer variable as a clause /
 //!    let / label binder of another type or chirality while a sibling clause (or the code after the
@@ -523,6 +523,10 @@ fn emit_with_mutants(out: &mut dyn std::io::Write, k: &mut usize, name: &str, p:
     }
 }
 
+/// Corpus files that are ill-typed although their name lacks `-ill-`: witnesses of acceptance defects recorded by
+/// another property under its own naming scheme and repaired since (a recurrence = `accepts-ill-typed:ill`).
+const ILL_CORPUS: [&str; 1] = ["c12_main_nonint.sc"];
+
 pub fn cmd_check(seed: u64, n: usize, extra: &[String], out: &mut dyn std::io::Write) {
     let mut rng = Rng::new(seed);
     let mut dirs = crate::pipe::default_dirs();
@@ -541,7 +545,7 @@ pub fn cmd_check(seed: u64, n: usize, extra: &[String], out: &mut dyn std::io::W
         let parsed = std::panic::catch_unwind(|| fun::parser::parse_module(&src));
         let Ok(Ok(p)) = parsed else { continue };   // unparseable files are C18's business
         let base = f.file_name().map(|s| s.to_string_lossy().to_string()).unwrap_or_default();
-        let ill = name.contains("fail_check") || base.contains("-ill-");
+        let ill = name.contains("fail_check") || base.contains("-ill-") || ILL_CORPUS.contains(&base.as_str());
         if ill { emit(out, &mut k, &name, "ill", &p); } else { emit_with_mutants(out, &mut k, &name, &p, true, &mut rng); }
     }
     for (name, src) in shadow_family() {
